@@ -54,6 +54,7 @@ enum {
 int mc_on(void);
 void mc_pre(int kind, const volatile void* addr, unsigned size, int order);
 void mc_post(int kind, const volatile void* addr, unsigned size);
+void mc_post_load(const volatile void* addr, unsigned size, void* result); /* may replace *result by an older store (opt.wm) */
 int mc_cas_weak_should_fail(const volatile void* addr);
 
 void mc_mutex_lock(void* m);
